@@ -14,7 +14,7 @@ def gen(tier, seed):
     rnd = random.Random(seed * 31 + 3)
     thorough = tier == 'thorough'
     cases = []
-    reps = 40 if thorough else 8
+    reps = 120 if thorough else 8
     for kind in ('R2', 'R3', 'SE2', 'SE3'):
         for n_poses in (2, 3, 4):
             for _ in range(reps):
@@ -25,14 +25,14 @@ def gen(tier, seed):
                     c, _ = GC.permute(c, rnd)
                 cases.append(c)
     # mixed dimensionality: an SE(2) and an SE(3) component (and R^n components) in one graph
-    for _ in range(20 if thorough else 5):
+    for _ in range(60 if thorough else 5):
         a = GC.gen_graph(rnd, rnd.choice(['SE2', 'R2']), 2, 1, 0, fixed_mode='some', fix_first=True)
         b = GC.gen_graph(rnd, rnd.choice(['SE3', 'R3']), 2, 1, 0, fixed_mode='some', fix_first=True)
         c = GC.merge(a, b, rnd)
         c, _ = GC.permute(c, rnd)
         cases.append(c)
     # larger graphs
-    for _ in range(12 if thorough else 2):
+    for _ in range(30 if thorough else 2):
         kind = rnd.choice(['SE2', 'SE3', 'R2', 'R3'])
         c = GC.gen_graph(rnd, kind, rnd.randint(5, 8), rnd.randint(0, 2), rnd.randint(2, 6), custom=False, fixed_mode='some', fix_first=True)
         c, _ = GC.permute(c, rnd)
